@@ -61,7 +61,7 @@ Proof. vm_compute. repeat split. Qed.
 
 (* a short count (half the block written) at stripe 5, single-thread mode: fatal, the stripe is marked bad, its block is junk *)
 Example write_short_count_now_bad :
-  let r := sync_loop_w hz 1024 1 wo 7 wfs (fun _ => []) (fun pos l => if Nat.eqb pos 5 then classify_pwrite 1024 false (PwCount 512) else WOk) Mono (fun _ _ => 1)
+  let r := sync_loop_w hz 1024 1 wo 7 wfs (fun _ => []) (fun pos l => if Nat.eqb pos 5 then classify_pwrite 1024 (PwCount 512) else WOk) Mono (fun _ _ => 1)
                        (seq 0 8) None 0 [] [] wc wpar 0 0 0 in
   ro_bailed (w_run r) = true /\ run_failing (w_run r) = true /\ w_fpos r = [5] /\
   recorded_healthy (ro_content (w_run r)) 5 = false /\ nth 5 (nth 0 (ro_parity (w_run r)) []) PNone = PJunk 0 /\
